@@ -79,8 +79,36 @@ func ValuesEncode(v url.Values) string {
 	return sb.String()
 }
 
-// QueryEscape / PathEscape: injective encodings (uninterpreted under the executor).
+// QueryEscape / PathEscape: injective encodings (uninterpreted under the executor), except
+// that strings whose characters are individually known (constants, verif.Chars inputs) are
+// escaped by QueryEscapeChars, a transcription of the real algorithm.
 func QueryEscape(s string) string { return verif.UFStr("qescape", s) }
+
+const upperhex = "0123456789ABCDEF"
+
+// QueryEscapeChars transcribes url.QueryEscape (escape(s, encodeQueryComponent)).
+func QueryEscapeChars(s string) string {
+	out := make([]byte, 0, 3*len(s))
+	for i := 0; i < len(s); i++ {
+		c := s[i]
+		switch {
+		case 'a' <= c && c <= 'z' || 'A' <= c && c <= 'Z' || '0' <= c && c <= '9' || c == '-' || c == '_' || c == '.' || c == '~':
+			out = append(out, c)
+		case c == ' ':
+			out = append(out, '+')
+		default:
+			out = append(out, '%', hexDigit(c>>4), hexDigit(c&15))
+		}
+	}
+	return string(out)
+}
+
+func hexDigit(n byte) byte {
+	if n < 10 {
+		return '0' + n
+	}
+	return 'A' + n - 10
+}
 func PathEscape(s string) string  { return verif.UFStr("pescape", s) }
 
 // ---- *http.Request form access over the harness request model: r.Form is pre-populated by
